@@ -65,6 +65,23 @@ class _Exprs(ast.NodeTransformer):
                 return ast.copy_location(ast.BoolOp(op=ast.And() if isinstance(node.ops[0], ast.Eq) else ast.Or(), values=parts), node)
         return node
 
+    def visit_BinOp(self, node: ast.BinOp) -> ast.AST:
+        self.generic_visit(node)
+        # integers: x & (2**k - 1) is x % 2**k  (the operand of `&` with an int constant is an int)
+        if isinstance(node.op, ast.BitAnd):
+            for a, b in ((node.left, node.right), (node.right, node.left)):
+                if isinstance(b, ast.Constant) and type(b.value) is int and b.value > 0 and (b.value + 1) & b.value == 0:
+                    return ast.copy_location(ast.BinOp(left=a, op=ast.Mod(), right=ast.copy_location(ast.Constant(value=b.value + 1), b)), node)
+        # x >> k is x // 2**k,  x << k is x * 2**k  (int constants k)
+        if isinstance(node.op, (ast.RShift, ast.LShift)) and isinstance(node.right, ast.Constant) and type(node.right.value) is int and 0 < node.right.value < 63:
+            op = ast.FloorDiv() if isinstance(node.op, ast.RShift) else ast.Mult()
+            return ast.copy_location(ast.BinOp(left=node.left, op=op, right=ast.copy_location(ast.Constant(value=1 << node.right.value), node.right)), node)
+        # a ** b of int constants is its value
+        if isinstance(node.op, ast.Pow) and isinstance(node.left, ast.Constant) and isinstance(node.right, ast.Constant) and type(node.left.value) is int \
+                and type(node.right.value) is int and 0 <= node.right.value < 64 and abs(node.left.value) <= 16:
+            return ast.copy_location(ast.Constant(value=node.left.value ** node.right.value), node)
+        return node
+
     def visit_IfExp(self, node: ast.IfExp) -> ast.AST:
         self.generic_visit(node)
         if _pure(node.test) and ast.dump(node.test) == ast.dump(node.body):
